@@ -1,8 +1,8 @@
-(* Extraction of the C16 models (Density.v) for the correspondence runs.
+(* Extraction of the C16 models (Density.v, DensityUpdate.v) for the correspondence runs.
    ExtrOcamlBasic only: bool/option/list/prod/unit/sumbool map to OCaml's; Z,
    positive, nat, Q stay the extracted Coq datatypes.  No Extract Constant. *)
 From Coq Require Import Extraction ExtrOcamlBasic ZArith List QArith.
-Require Import CV.Orient CV.FreeSpace CV.Density.
+Require Import CV.Orient CV.FreeSpace CV.Density CV.DensityUpdate.
 Extraction Language OCaml.
 Extraction "model_density.ml"
   Density.subdivisions Density.make_grid Density.grid_of_circuit Density.total_capacity
@@ -10,4 +10,5 @@ Extraction "model_density.ml"
   Density.init_state Density.step Density.run_ops Density.redistribute Density.coarsen_x Density.coarsen_y
   Density.refine_x Density.refine_y Density.partition_okb Density.refined_from_x Density.refined_from_y
   Density.perm_b Density.allcells Density.gather
-  Density.find_constrained_split Density.rebisect_split Density.reallocate Density.spread_cells Qreduction.Qred.
+  Density.find_constrained_split Density.rebisect_split Density.reallocate Density.spread_cells Qreduction.Qred
+  DensityUpdate.circuit_demands DensityUpdate.same_zero_status DensityUpdate.update_demand DensityUpdate.ustep.
